@@ -116,6 +116,47 @@ func VH_C17_int(form int) {
 	rt.Assert(isInt && il.Value == want, "an integer literal has exactly its mathematical value")
 }
 
+var vAlphabets = []string{"0123456789", "0123456789abcdefABCDEF", "01234567", "01"}
+
+// VH_C17_digits: every literal of one to three digits over the FULL digit alphabet of the
+// base (both letter cases for hex): first and second digit any digit, third digit absent /
+// 0 / the largest digit / an underscore-separated 1; prefix case a solver choice. shard / of
+// split the first digit between jobs.
+func VH_C17_digits(form, shard, of int) {
+	al := vAlphabets[form]
+	lo, hi := len(al)*shard/of, len(al)*(shard+1)/of
+	if hi <= lo {
+		return
+	}
+	body := string(al[lo+rt.Choice(hi-lo)])
+	if rt.Bool() {
+		body += string(al[rt.Choice(len(al))])
+		switch rt.Choice(4) {
+		case 1:
+			body += "0"
+		case 2:
+			body += string(al[len(al)-1])
+		case 3:
+			body += "_1"
+		}
+	}
+	lit, id, base := body, INT, uint64(10)
+	switch form {
+	case 1:
+		lit, id, base = []string{"0x", "0X"}[rt.Choice(2)]+body, HEX_INT, 16
+	case 2:
+		lit, id, base = []string{"0o", "0O"}[rt.Choice(2)]+body, OCT_INT, 8
+	case 3:
+		lit, id, base = []string{"0b", "0B"}[rt.Choice(2)]+body, BIN_INT, 2
+	}
+	rt.Note(lit)
+	want, _ := vDigits(body, base)
+	n, ok := vParseLit(id, lit)
+	rt.Assert(ok, "an integer literal must parse")
+	il, isInt := n.(*ast.IntLiteral)
+	rt.Assert(isInt && il.Value == want, "an integer literal has exactly its mathematical value")
+}
+
 var vMantissas = []string{"1", "12", "9", "100", "1_5", "123456789", "9223372036854775807", "92233720368547758", "10"}
 var vExps = []string{"0", "1", "2", "3", "17", "18", "19", "-1", "-2", "00", "30"}
 
